@@ -696,6 +696,11 @@ impl FinishedSession {
         #[cfg(nomt_verif)]
         crate::verif::point("lin", "commit.locked");
 
+        // A poisoned store accepts nothing: refuse before the root or the rollback log are touched.
+        if nomt.store.is_poisoned() {
+            anyhow::bail!("Store is poisoned due to prior error");
+        }
+
         {
             let mut shared = nomt.shared.lock();
             if shared.root != self.prev_root {
@@ -750,6 +755,11 @@ impl FinishedSession {
         }
         #[cfg(nomt_verif)]
         crate::verif::point("lin", "try_commit.locked");
+
+        // A poisoned store accepts nothing: refuse before the root or the rollback log are touched.
+        if nomt.store.is_poisoned() {
+            anyhow::bail!("Store is poisoned due to prior error");
+        }
 
         // A stale changeset must be rejected before its delta reaches the rollback log. The
         // write guard is held, so the root cannot change until the swap below.
@@ -840,6 +850,11 @@ impl Overlay {
         #[cfg(nomt_verif)]
         crate::verif::point("lin", "overlay_commit.locked");
 
+        // A poisoned store accepts nothing: refuse before the root or the rollback log are touched.
+        if nomt.store.is_poisoned() {
+            anyhow::bail!("Store is poisoned due to prior error");
+        }
+
         {
             let mut shared = nomt.shared.lock();
             if shared.root != self.prev_root() {
@@ -905,6 +920,11 @@ impl Overlay {
         }
         #[cfg(nomt_verif)]
         crate::verif::point("lin", "overlay_try_commit.locked");
+
+        // A poisoned store accepts nothing: refuse before the root or the rollback log are touched.
+        if nomt.store.is_poisoned() {
+            anyhow::bail!("Store is poisoned due to prior error");
+        }
 
         {
             let mut shared = nomt.shared.lock();
